@@ -92,7 +92,7 @@ def chunksOf (h : Hist) (cuts : List Nat) : List Hist :=
 
 def updateOf (ops : EvoOps) (pop : List Item) (_step : Nat) : List Item :=
   match ops.update with
-  | "last" => pop.drop (pop.length - ops.keep)
+  | "last" => if ops.keep = 0 then pop else pop.drop (pop.length - ops.keep)    -- Python `pop[-0:]` is everything
   | "duel" =>
     if pop.length > ops.keep then
       match pop with
@@ -147,6 +147,12 @@ def itemNsgaJ (it : Item) : J :=
         ("initial", optBool it.initial), ("fbseq", optNat it.fbseq), ("key", optNat it.key)]
 
 def obsNsga : Algo → St → J
+  | .deduping inner _ _ _ _, .deduping np nf si cache =>
+    .obj [("np", .int np), ("nf", .int nf),
+          ("cache", .arr ((cache.foldr insertKey []).map fun (k, rs) => .arr [.int k, .arr (rs.map fun r =>
+              match r with | some r => J.arr ((Nsga2.objs r).map .int) | none => J.null)])),
+          ("feedback_driven", .bool (needsFeedback inner)),
+          ("inner", obsNsga inner si)]
   | .evolution _ _, .evolution np nf _ _ g enc _ =>
     let (elites, pop) := Nsga2.decode enc
     .obj [("np", .int np), ("nf", .int nf), ("gen", .int g), ("pop", .arr (pop.map itemNsgaJ)),
@@ -226,11 +232,8 @@ def handle (j : J) : J :=
       | _ => []
     -- a reproduction call is identified by its step and by the population it is applied to (a failed
     -- `propose` is retried at the same step after more feedback)
-    let popPart (enc : List Item) : List Item :=
-      if ops'.update == "nsga2" then (Nsga2.decode enc).2
-      else if ops'.update == "neat" then (Neat.decode enc).2 else enc
     let callKey (enc : List Item) (step : Nat) : String :=
-      let p := popPart enc
+      let p := enc.filter fun it => it.dna < 1000000          -- without the marks of the NSGA2 / NEAT encodings
       s!"{step}:{p.foldl (fun a it => a + it.fbseq.getD 0) 0}:{p.length}"
     let evAt (enc : List Item) (step : Nat) : List Pg.C14.Ev :=
       ((evTable.find? (·.1 == callKey enc step)).map (·.2)).getD []
